@@ -52,14 +52,17 @@ def rec_op(name, ndraw, rec):
     return f
 
 
-def build(rng, rec, order=None, spec=None):
-    """spec: list of (name, kind, parents, ndraw); built in `order` respecting dependencies"""
+def build(rng, rec, order=None, spec=None, case_pair=False):
+    """spec: list of (name, kind, parents, ndraw); built in `order` respecting dependencies.
+    case_pair: the first two nodes are independent stochastic nodes whose names differ ONLY in letter case"""
     if spec is None:
         n = rng.randint(2, 9)
         letters = 'ABCabcXYZxyz'
         names = []
         while len(names) < n:
             nm = rng.choice(letters) + rng.choice(letters + '0123') + str(rng.randint(0, 9))
+            if case_pair and len(names) == 1:
+                nm = names[0].swapcase()
             if nm not in names:
                 names.append(nm)
         spec = []
@@ -67,6 +70,8 @@ def build(rng, rec, order=None, spec=None):
         for i, nm in enumerate(names):
             parents = rng.sample(names[:i], rng.randint(0, min(i, 3)))
             sto = nsto < 4 and rng.random() < .5
+            if case_pair and i < 2:
+                parents, sto = [], True
             nsto += sto
             spec.append((nm, 'sim' if sto else 'op', parents, rng.randint(1, 4) if sto else 0))
     m = elfi.ElfiModel(name='c02')
@@ -177,9 +182,11 @@ def check_purity(ctx):
         if ctx.enough():
             break
         rec = Rec()
-        m, spec = build(rng, rec)
+        case_pair = it < 3 or rng.random() < .15
+        m, spec = build(rng, rec, case_pair=case_pair)
         names = [s[0] for s in spec]
-        outputs = rng.sample(names, rng.randint(1, len(names)))
+        outputs = rng.sample(names, rng.randint(1, len(names))) if not case_pair else list(names)
+        ctx.count('purity.case_only_name_pair', case_pair)
         seed = rng.choice([0, 2**32 - 1, rng.randrange(2**32), rng.randrange(2**32)])
         bs = rng.randint(1, 4)
         idx = rng.randint(0, 3)
